@@ -423,6 +423,15 @@ pub fn eval_history(base: &Base, hist: &[Op], cfg: EvalCfg, enabled: &dyn Fn(&Mo
     };
     let act = act_raw.resolve();
     let mut clauses = compare(&exp, &act);
+    // imports requested with an explicit type index carry exactly that index
+    for (m, n, ty) in model.import_types.iter() {
+        if let Some(pos) = act_raw.func_imports.iter().position(|(am, an)| am == m && an == n) {
+            let got = act_raw.func_import_types.get(pos).copied().unwrap_or(u32::MAX);
+            if got != *ty {
+                clauses.push(Clause { kind: ClauseKind::Func, sig: "import type-index differs".into(), detail: format!("import {}.{} was requested with type {}, the import section declares type {}", m, n, ty, got) });
+            }
+        }
+    }
     if cfg.names {
         let name_any: BTreeSet<Tok> = {
             let ft = exp.funcs.clone();
